@@ -2,7 +2,7 @@
    name.  This is what is extracted; the correspondence harness calls these
    and nothing else. *)
 From AK Require Import Base.Prelude Base.Sx Bytes.Text Bytes.FabHeader Bytes.BinFile
-  Reader.Select Reader.BoxRead Reader.Level Plotfile.TextHeader Taste.Taste Reader.ReadSpec Plotfile.Abstract Writers.Colander Writers.ColanderSpec Writers.Combine Writers.CombineSpec Writers.Chef Writers.Chk2plt Writers.ChefToolProofs Writers.FullPipeline Writers.GoodB
+  Reader.Select Reader.BoxRead Reader.Level Plotfile.TextHeader Taste.Taste Reader.ReadSpec Plotfile.Abstract Writers.Colander Writers.ColanderSpec Writers.Combine Writers.CombineSpec Writers.Chef Writers.Chk2plt Writers.ChkHeader Writers.ChefToolProofs Writers.FullPipeline Writers.GoodB
   Array.Paint Mandoline.Plate Mandoline.Slice3D Mandoline.SlicePlot Whip.Whip Pestle.Pestle Point.PointQuery Menu.Menu Paths.Posix.
 
 Definition as_Zs := as_list as_Z.
@@ -542,6 +542,59 @@ Definition e_chk2plt_level_dir (s : sx) : sx :=
   | _ => bad_request
   end.
 
+(* ---- C17: the checkpoint Header (CheckpointReader.__init__) and the plotfile Header chk2plt writes.
+   Oracle tables stand for the floating-point parameters: wholes = the tokens t with float(t) % 1 == 0,
+   toints = (token, int(float(token))) pairs, frepr = (token, printed float) pairs.
+   chk_header: request (text wholes toints pinned) -> the header record, read by the repaired reader or (pinned = 1)
+   by the reader of the pinned commit.
+   chk_written: request (text wholes toints species do_gradp do_ir (n_state n_gradp n_ir) frepr dx_rows bounds) -> the
+   Header text write_global_header produces from the parsed checkpoint header and the field list chk_fields ---- *)
+Definition tbl_Z (l : list (bytes * Z)) (t : bytes) : Z :=
+  match find (fun p => bytes_eqb (fst p) t) l with Some p => snd p | None => 0 end.
+Definition tbl_B (l : list (bytes * bytes)) (t : bytes) : bytes :=
+  match find (fun p => bytes_eqb (fst p) t) l with Some p => snd p | None => t end.
+
+Definition enc_chk_header (h : chk_header) : sx :=
+  SL [enc_line (ch_version h); SZ (ch_max_level h); SZ (ch_step h); Sx.of_opt enc_line (ch_int h);
+      SB (ch_time h); SB (ch_dt1 h); SB (ch_dt2 h); enc_line (ch_lo h); enc_line (ch_hi h);
+      of_list (of_list (of_pair of_Zs of_Zs)) (ch_boxes h);
+      SL [SB (ct_pressure (ch_tail h)); Sx.of_opt SZ (ct_sys (ch_tail h)); enc_line (ct_typvals (ch_tail h))]].
+
+Definition e_chk_header (s : sx) : sx :=
+  match s with
+  | SL [t; wholes; toints; pinned] =>
+      req (do t <- as_text t; do w <- as_Bs wholes; do ti <- as_list (as_pair as_B as_Z) toints; do p <- as_bool pinned;
+           Some (t, w, ti, p))
+          (fun '(t, w, ti, p) =>
+             of_result enc_chk_header
+               (match (if p : bool then p_chk_pinned else p_chk) (fun x => mem x w) (tbl_Z ti) t with
+                | Some (h, _) => Some h | None => None end))
+  | _ => bad_request
+  end.
+
+Definition e_chk_written (s : sx) : sx :=
+  match s with
+  | SL [t; wholes; toints; species; dg; di; SL [SZ n_state; SZ n_gradp; SZ n_ir]; frepr; dxrows; bnds] =>
+      req (do t <- as_text t; do w <- as_Bs wholes; do ti <- as_list (as_pair as_B as_Z) toints;
+           do species <- as_Bs species; do dg <- as_bool dg; do di <- as_bool di;
+           do fr <- as_list (as_pair as_B as_B) frepr; do dx <- as_list as_Bs dxrows;
+           do bd <- as_list (as_list (as_list (as_pair as_B as_B))) bnds;
+           Some (t, w, ti, species, dg, di, fr, dx, bd))
+          (fun '(t, w, ti, species, dg, di, fr, dx, bd) =>
+             of_result enc_text
+               (match p_chk (fun x => mem x w) (tbl_Z ti) t with
+                | Some (h, _) =>
+                    let fields := chk_fields species dg di in
+                    let nout := chk_nfields_out n_state n_gradp n_ir dg di in
+                    (* Chk2plt.__init__: the component counts of the checkpoint must add up to the field list *)
+                    if nout =? blen fields then
+                      Some (write_global_header (tbl_B fr) (fun lv => nth (Z.to_nat lv) dx [])
+                                                (fun lv => nth (Z.to_nat lv) bd []) h fields nout)
+                    else None
+                | None => None end))
+  | _ => bad_request
+  end.
+
 (* ---- C07: mandoline 3D slice (array output) ----
    request: (levels limit cn P dom_lo dom_hi ncomp nx ny), levels = lists of (lo hi (component bytes ...));
    result: (left right), each a list over pixels (x major) of () or ((words...) normal level) *)
@@ -672,6 +725,8 @@ Definition entries : list (string * (sx -> sx)) :=
     ("goodb", e_goodb);
     ("chk2plt_level", e_chk2plt_level);
     ("chk2plt_level_dir", e_chk2plt_level_dir);
+    ("chk_header", e_chk_header);
+    ("chk_written", e_chk_written);
     ("slice3d", e_slice3d);
     ("menu", e_menu);
     ("minuterie", e_minuterie);
